@@ -652,13 +652,14 @@ impl Engine for C10 {
         let bound = if tier == Tier::Quick { 2 } else { 3 };
         Describe {
             level: "model_checking",
-            rule: format!("scenario: table t with one flushed batch and one batch in the open buffer (+ a second table), then concurrently actor F = force_flush (partition_combine_factor 0: every flush also compacts; 4: no compaction), actor Q = one query from {{SELECT id, SELECT x (a column the new partition lacks), SELECT id, y, SELECT *, COUNT(1), a query on evicted / reopened columns}} and optionally actor I = one ingestion request carrying a third batch for t and the first rows of a table that does not exist yet. The three actors are real database threads parked at the sync points compiled into wal_flush (begin, frozen, per table batched / sub-partitioned, batched, partition files written, partitions persisted, compaction begin / before swap / after swap / catalogue updated, compacted, catalogue persisted, orphans deleted, end), run_query (snapshot taken, before each partition, before each disk read) and ingest_efficient (begin, end). EVERY schedule 'run actor X to its next sync point' with at most {} context switches (one less in the scenarios with three actors) is executed (depth-first with replay). Oracle: the query returns Ok; its rows equal the content of a prefix of the acknowledged batch log (every batch whole, all batches acknowledged before the query started included); no database thread panics; all actors complete; afterwards SELECT id returns every acknowledged row once, for t and for the newly created table. Non-trivial: schedules with at least one switch; distinct by the sequence of sync points observed.", bound),
+            rule: format!("scenario: table t with one flushed batch and one batch in the open buffer (+ a second table), then concurrently actor F = force_flush (partition_combine_factor 0: every flush also compacts; 4: no compaction), actor Q = one query from {{SELECT id, SELECT x (a column the new partition lacks), SELECT id, y, SELECT *, COUNT(1), a query on evicted / reopened columns}} and optionally actor I = one ingestion request carrying a third batch for t and the first rows of a table that does not exist yet. The three actors are real database threads parked at the sync points compiled into wal_flush (begin, frozen, per table batched / sub-partitioned, batched, partition files written, partitions persisted, compaction begin / before swap / after swap / catalogue updated, compacted, catalogue persisted, orphans deleted, end), run_query (snapshot taken, before each partition, before each disk read) and ingest_efficient (begin, end). EVERY schedule 'run actor X to its next sync point' with at most {} context switches (one less in the scenarios with three actors) is executed (depth-first with replay). Oracle: the query returns Ok; its rows equal the content of a prefix of the acknowledged batch log (every batch whole, all batches acknowledged before the query started included); no database thread panics; all actors complete; afterwards SELECT id returns every acknowledged row once, for t and for the newly created table. Non-trivial: schedules with at least one switch; distinct by the sequence of sync points observed. LOCK LEVEL (second engine, /verif/harness-sched): the table core (Table, Partition, ColumnHandle, Lru, DiskReadScheduler signatures) of a mechanical copy of /repo's working tree is compiled against shuttle's Mutex / RwLock / atomics; threads F (freeze under the ingestion lock, batch, make evictable, optionally plan + compact all partitions), I (one ingestion under the ingestion lock), Q (Table::snapshot; one or two of them) and E (evict everything evictable) run as shuttle tasks and a depth-first scheduler enumerates, with replay and a divergence check, EVERY interleaving of their lock acquisitions / releases and atomic accesses with at most {} preemptions ({} in the four-thread scenario). Oracle per snapshot: row ranges are contiguous from 0 without overlap, cover a whole number of requests, include everything acknowledged before the snapshot started, and resident id columns hold exactly the ids of their range; afterwards the quiescent snapshot holds every acknowledged row once.", bound, if tier == Tier::Quick { 2 } else { 3 }, if tier == Tier::Quick { 1 } else { 2 }),
             assumptions: vec![
                 "interleavings are explored at sync-point granularity; lock-level interleavings between two sync points are taken as they come".into(),
                 "an actor that does not reach its next sync point within the patience window is treated as blocked by a parked actor and left running; only a schedule in which the actors never complete counts as a hang".into(),
                 "the order of tables inside one flush follows HashMap iteration and may differ between runs; schedules are replayed by choice sequence".into(),
+                "lock level: the driver reproduces the one lock of the protocol that lives outside the table (InnerLocustDB.wal_size: held by an ingestion until it is acknowledged and by the flush while it freezes); tables have one column so that HashMap iteration order cannot change the order of lock operations (a divergence between two runs of the same choice sequence is a machinery error); memory orderings weaker than sequential consistency are not modelled by shuttle".into(),
             ],
-            bounds: json!({"context_switch_bound": bound, "scenarios": scenarios(tier).len()}),
+            bounds: json!({"context_switch_bound": bound, "scenarios": scenarios(tier).len(), "lock_level": {"scenarios": LOCK_SCENARIOS, "preemption_bound": if tier == Tier::Quick { 2 } else { 3 }, "preemption_bound_four_threads": if tier == Tier::Quick { 1 } else { 2 }, "execution_cap_per_scenario": if tier == Tier::Quick { 400_000 } else { 4_000_000 }}}),
             states_meaning: "distinct sync-point traces (schedules) executed",
         }
     }
@@ -709,11 +710,94 @@ impl Engine for C10 {
             }
           }
         }
+        run_lock_level(tier, shard, nshards, out);
     }
 
     fn replay(&self, case: &Value) -> Option<Violation> {
+        if let Some(sc) = case.get("sched") {
+            return replay_lock_level(sc, case);
+        }
         replay_gate_case_with("C10:", case)
     }
+}
+
+// ---------------------------------------------------------------------------------------------
+// lock-level exploration (E-sched): a second binary, /verif/harness-sched, built by ./check from a
+// copy of /repo in which the table core uses shuttle's lock and atomic types
+// ---------------------------------------------------------------------------------------------
+
+const LSCHED: &str = "/verif/target-sched/debug/lsched";
+pub const LOCK_SCENARIOS: [&str; 6] = [
+    "flush+query",
+    "flush+ingest+query",
+    "flush+compaction+query",
+    "flush+compaction+ingest+query",
+    "flush+compaction+evict+query",
+    "flush+ingest+two-queries",
+];
+
+fn run_lock_level(tier: Tier, shard: usize, nshards: usize, out: &mut ShardResult) {
+    for (k, name) in LOCK_SCENARIOS.iter().enumerate() {
+        // the sync-point scenarios load the low shards first
+        if (nshards - 1 - (k % nshards)) != shard {
+            continue;
+        }
+        let o = std::process::Command::new(LSCHED)
+            .args(["run", if tier == Tier::Quick { "quick" } else { "thorough" }, name])
+            .output()
+            .unwrap_or_else(|e| panic!("cannot run {}: {} (./check C10 builds it)", LSCHED, e));
+        if !o.status.success() {
+            panic!("{} failed on scenario {}: {}", LSCHED, name, String::from_utf8_lossy(&o.stderr).lines().rev().take(5).collect::<Vec<_>>().join(" | "));
+        }
+        let reports: Vec<Value> = serde_json::from_slice(&o.stdout).unwrap_or_else(|e| panic!("{}: unreadable report: {}", LSCHED, e));
+        for r in reports {
+            if let Some(d) = r["divergence"].as_str() {
+                // the same choice sequence gave different enabled sets: the exploration is not trustworthy
+                panic!("lock-level exploration of {} is not deterministic: {}", name, d);
+            }
+            let ex = r["executions"].as_u64().unwrap_or(0);
+            out.evaluations += ex;
+            out.transitions += r["decisions"].as_u64().unwrap_or(0);
+            out.count("lock_level_executions", ex);
+            out.count("lock_level_snapshots_checked", r["snapshots_checked"].as_u64().unwrap_or(0));
+            let h = hash64(format!("lock-level|{}|{}", name, ex).as_bytes());
+            out.states.insert(h);
+            out.nontrivial.insert(h);
+            if let Some(m) = r["outcomes"].as_object() {
+                for (k, n) in m {
+                    for _ in 0..n.as_u64().unwrap_or(0).min(1) {
+                        out.outcome(&format!("lock-level:{}:{}", name, k));
+                    }
+                }
+            }
+            if r["capped"].as_bool().unwrap_or(false) {
+                out.caps_hit.push(format!("lock-level scenario {}: stopped after {} executions (preemption bound {})", name, ex, r["preemption_bound"]));
+            }
+            for v in r["violations"].as_array().cloned().unwrap_or_default() {
+                let sig = v["sig"].as_str().unwrap_or("C10:locks").to_string();
+                out.violation(Violation {
+                    sig: sig.clone(),
+                    what: format!("lock-level scenario {}, choices {}: {}", name, v["choices"], v["what"].as_str().unwrap_or("")),
+                    weight: v["choices"].as_array().map(|a| a.len() as u64).unwrap_or(0),
+                    case: json!({"sched": {"scenario": name, "choices": v["choices"]}, "expect": sig}),
+                });
+            }
+        }
+    }
+}
+
+fn replay_lock_level(sc: &Value, case: &Value) -> Option<Violation> {
+    let name = sc["scenario"].as_str()?;
+    let choices: Vec<String> = sc["choices"].as_array()?.iter().map(|c| c.to_string()).collect();
+    let o = std::process::Command::new(LSCHED).args(["replay", name, &choices.join(",")]).output().ok()?;
+    let v: Value = serde_json::from_slice(&o.stdout).ok()?;
+    if o.status.code() == Some(1) {
+        return Some(Violation { sig: v["sig"].as_str().unwrap_or("C10:locks").to_string(), what: v["what"].as_str().unwrap_or("").to_string(), weight: 1, case: case.clone() });
+    }
+    if o.status.code() == Some(2) {
+        panic!("lock-level replay diverged: {}", v);
+    }
+    None
 }
 
 /// C08 under schedules: an ingestion acknowledged at any sync point of a concurrent flush survives a
